@@ -26,9 +26,16 @@ Step(s, e) ==
          IF e.panic # "" THEN [st |-> s, bad |-> V("C08", "pump panicked: " \o e.panic)]
          ELSE IF e.err # "" THEN [st |-> s, bad |-> V("C08", "pump failed although the reader only did short reads / EINTR: " \o e.err)]
          ELSE [st |-> [s EXCEPT !.cs = Append(@, [k |-> e.k, off |-> e.off, data |-> e.data])], bad |-> {}]
+    [] e.ev = "recheck" ->      \* after the arena moved on: every Data chunk handed out is still alive and unchanged
+         LET ds == SelectSeq(s.cs, LAMBDA c : c.k = "D") IN
+         [st |-> s,
+          bad |-> When(e.dangling > 0, V("C05", "a Data chunk handed out by the StreamChunker no longer lies in live arena memory"))
+             \cup When(e.dangling = 0 /\ e.chunks # [i \in 1..Len(ds) |-> ds[i].data],
+                       V("C05", "the bytes of a Data chunk changed after it was handed out"))]
     [] e.ev = "record" ->
          [st |-> [s EXCEPT !.recs = Append(@, [data |-> e.data, a |-> e.a, b |-> e.b]), !.lso = e.lso],
-          bad |-> When(e.flat_ok # 1, V("C06", "returned record has a pending backpatch"))
+          bad |-> When(e.dangling > 0, V("C05", "a slice of a returned record does not lie in live arena memory"))
+             \cup When(e.dangling = 0 /\ e.flat_ok # 1, V("C06", "returned record has a pending backpatch"))
              \cup When(e.lso < s.lso, V("C06", "last_sentinel_offset decreased"))
              \cup When(e.lso > 0 /\ ~(e.lso + 2 <= Len(s.s) /\ s.s[e.lso + 1] = FE /\ s.s[e.lso + 2] = FD),
                        V("C06", "last_sentinel_offset is not the start of a stuff sequence"))]
